@@ -226,7 +226,7 @@ theorem gmStep_long' (nc : NcFile) (coords : List Entry) (danVars : List String)
     gmStep nc coords danVars st (gn, cvs) =
       { vcrs := st.vcrs.map (fun v => if cvs.contains v.1 then (v.1, v.2.1, { v.2.2 with datum := gv.attrs.filter isDatumParam }) else v)
         out := st.out ++ [rdGM gn gv (eraseAll cvs (st.vcrs.map (·.1)))]
-        seen := st.seen ++ [gn] } := by
+        seen := st.seen ++ [gn], used := st.used } := by
   unfold gmStep
   simp only [hv]
   have hany : cvs.any (fun c => (nc.var? c).isNone) = false := by
@@ -510,7 +510,7 @@ theorem gm_fold_general (hlen : (gmOnly f).length ≠ 1) (l : List (Key × MRef)
       = { vcrs := st.vcrs.map (fun v => l.foldl (fun v g => updV f names g v) v)
           out := st.out ++ l.map (fun g => rdGM (nameOf names (.gm g.1)) (gmVar names g)
                     (eraseAll (listedOf f names g) (vcoords o f names)))
-          seen := st.seen ++ l.map (fun g => nameOf names (.gm g.1)) } := by
+          seen := st.seen ++ l.map (fun g => nameOf names (.gm g.1)), used := st.used } := by
   induction l generalizing st with
   | nil => simp
   | cons g gs ih =>
